@@ -170,7 +170,7 @@ class CallGraph:
             pool = (by_trait_impl.get("serialize", []) if ser else []) + (by_trait_impl.get("deserialize", []) if de else [])
             for ga in g:
                 for b in pool:
-                    if _ty_mentions(ga, b.impl_self):
+                    if _ty_is_or_wraps(ga, b.impl_self):
                         out.append(b.defp)
         if name in ("serialize", "deserialize") and tr in ("serde::Serialize", "serde::Deserialize", "serde::ser::Serialize", "serde::de::Deserialize") and g:
             out += impls(name, g[0], "Serialize" if name == "serialize" else "Deserialize")
@@ -242,3 +242,15 @@ def _ty_eq(a, b):
 
 def _ty_mentions(big, small):
     return strip_generics(_norm_ty(small)) in _norm_ty(big)
+
+
+def _ty_is_or_wraps(big, small):
+    """big is the type `small` itself or a std container of it (Vec<small>, Option<small>, Arc<small>, &small)"""
+    b, sm = _norm_ty(big), _norm_ty(small)
+    if not sm:
+        return False
+    if b == sm or strip_generics(b) == strip_generics(sm) and "<" not in sm:
+        return True
+    import re
+    core = re.escape(sm)
+    return re.fullmatch(r"(&(mut)?)?((std::vec::Vec|std::option::Option|std::sync::Arc|std::boxed::Box)<)*%s(,[^<>]*)?>*" % core, b) is not None
